@@ -13,7 +13,7 @@ from pyvc.tree import (SEQ_ATTR as SeqAttr, ATTR_PAIR as AttrPair, PAT as Pat, A
                        FLAGS as Flags)
 from spec.vocab_tree import (parent, contents, idx, depth, is_tag, is_doc, is_navstr, is_comment, is_cdata, is_pi, is_decl,
                              is_doctype, text, name, prefix, namespace, is_xml_flag, next_sibling, previous_sibling, same,
-                             ascii_lower, height, bidi_class, descendants, dsize, dindex, next_element, ls_starts, ls_end, unesc_plain, unesc_string, ns_get, html_ns_map, fake_parent, rattrs, norm, as_str, is_str_val, ws_tokens, is_list_val, as_list, attr_ns, attr_local, pat_match, join_sp, has_non_ws, strip_nonempty, wild_strip, py_lower, split_dash, join_empty, NS_XHTML, NS_XML)
+                             ascii_lower, height, bidi_class, descendants, dsize, dindex, next_element, ls_starts, ls_end, unesc_plain, unesc_string, rv_starts, rv_split, rv_value, ns_get, html_ns_map, fake_parent, rattrs, norm, as_str, is_str_val, ws_tokens, is_list_val, as_list, attr_ns, attr_local, pat_match, join_sp, has_non_ws, strip_nonempty, wild_strip, py_lower, split_dash, join_empty, NS_XHTML, NS_XML)
 from spec.vocab_ir import (sel_is_null, SEL_EMPTY, SEL_ROOT, SEL_DEFAULT, SEL_INDETERMINATE, SEL_SCOPE, SEL_DIR_LTR, SEL_DIR_RTL,
                            SEL_IN_RANGE, SEL_OUT_OF_RANGE, SEL_DEFINED, SEL_PLACEHOLDER_SHOWN, DIR_FLAGS, RANGES)
 
@@ -1231,3 +1231,24 @@ def line_of(s: str, index: int) -> int:
 def col_of(s: str, index: int) -> int:
     """C20: column = offset within that line + 1."""
     return index - line_begin(s, 0, index, 0) + 1
+
+
+# ---------------------------------------------------------------------------------------------- value lists of :lang() / :-soup-contains() (C13, C19.O6)
+from pyvc.rx_rules import MATCH as Match   # noqa: E402
+SeqMatch = TSeq(Match)
+
+
+def value_of(tok: str) -> str:
+    """One item of a value list: a quoted string without its quotes, decoded by the string grammar; otherwise an identifier, decoded."""
+    if tok[0:1] == '"' or tok[0:1] == "'":
+        return unesc(tok[1:len(tok) - 1], True)
+    return unesc(tok, False)
+
+
+def vals_from(s: str, k: int) -> SeqStr:
+    """The decoded items of the value list s from its k-th token on (separators skipped)."""
+    if k < 0 or k >= len(rv_starts(s)):
+        return []
+    if rv_split(s, rv_starts(s)[k]):
+        return vals_from(s, k + 1)
+    return [value_of(rv_value(s, rv_starts(s)[k]))] + vals_from(s, k + 1)
